@@ -53,7 +53,7 @@ def main():
             else:
                 shutil.copy(demo, os.path.join(wt, "examples", "seed_demo.rs")); cmd = "cargo run --offline --example seed_demo 2>&1 | tail -25; exit ${PIPESTATUS[0]}"
             if os.path.exists(inject):
-                rc, out = sh("git apply %s" % inject, cwd=wt)
+                rc, out = sh("git apply %s || git apply --unidiff-zero %s" % (inject, inject), cwd=wt)
                 if rc != 0:
                     # try the other order: inject first, then the seeded change
                     sh("git checkout -- src may_queue/src", cwd=wt)
@@ -71,7 +71,7 @@ def main():
             res["demo_with_patch_passes"] = ok_with; res["demo_with_patch_tail"] = out_with[-600:]
             sh("git checkout -- src may_queue/src", cwd=wt)
             if os.path.exists(inject):
-                rc, out = sh("git apply %s" % inject, cwd=wt)
+                rc, out = sh("git apply %s || git apply --unidiff-zero %s" % (inject, inject), cwd=wt)
                 assert rc == 0, out
             ok_wo, out_wo = run_demo()
             res["demo_without_patch_passes"] = ok_wo; res["demo_without_patch_tail"] = out_wo[-400:]
@@ -111,6 +111,10 @@ def main():
 
 if __name__ == "__main__":
     r = main()
+    if "--rescan" in sys.argv:
+        old = os.path.join(r["seed"], "verify.json")
+        if os.path.exists(old):
+            o = json.load(open(old)); o["checks_caught"] = r.get("checks_caught", {}); o["rescanned_at"] = r["time"]; r = o
     if "--no-write" not in sys.argv:
         json.dump(r, open(os.path.join(r["seed"], "verify.json"), "w"), indent=1)
     print(json.dumps({k: v for k, v in r.items() if not k.endswith("_tail")}, indent=1))
